@@ -605,6 +605,15 @@ static std::vector<Point> run_one(const std::string& type, const VerCfg& vc, con
 		obj.reset();
 		if (g_file_level == 2 ? (int) s.size() <= g_file_dev : (g_file_level == 1 && s.empty())) oracle_c01_file(type, vc, s, st);
 	}
+	else if (A.prop == "C02") {
+		oracle_c02_block(type, vc, s, st, obj.get(), hdr);
+		obj.reset();
+		if (g_file_level == 2 ? (int) s.size() <= g_file_dev : (g_file_level == 1 && s.empty())) oracle_c02_file(type, vc, s, st);
+	}
+	else if (A.prop == "C07") {
+		obj.reset();
+		if ((int) s.size() <= g_file_dev) oracle_c07_file(type, vc, s, st);
+	}
 	return tape.points;
 }
 
@@ -709,7 +718,7 @@ int main(int argc, char** argv) {
 	g_chain_bound = (int) A.geti("chainbound", thorough ? 1 : 0);
 	if (A.prop == "C07") {
 		g_bound = (int) A.geti("bound", thorough ? 2 : 1);
-		g_file_dev = (int) A.geti("filedev", thorough ? 2 : 1);
+		g_file_dev = (int) A.geti("filedev", thorough ? 1 : 0);
 	}
 	if (A.prop == "C02") {
 		if (thorough) g_hists = all_histories(3);
